@@ -66,6 +66,9 @@ const TARGETS: &[Target] = &[
              func: "unpack", calls: &[("unpack", "gen_ub_unpack"), ("into", "model_from_vec")], deps: &["ub_unpack"], imports: "Tie.RsList" },
     Target { name: "ubl_complement", file: "src/bounds/userboundslist.rs", impl_trait: None, impl_self: Some("UserBoundsList"),
              func: "complement", calls: &[("complement", "gen_ub_complement"), ("into", "model_from_vec")], deps: &["ub_complement"], imports: "Tie.RsList" },
+    Target { name: "cut_bytes", file: "src/cut_bytes.rs", impl_trait: None, impl_self: None,
+             func: "cut_bytes", calls: &[("try_into_range", "gen_ub_try_into_range")], deps: &["ub_try_into_range"],
+             imports: "Model.Scan Model.Regex Model.Opt Tie.RsOpt Tie.RsStr Tie.RsList" },
     Target { name: "fast_try_from", file: "src/fast_lane.rs", impl_trait: Some("TryFrom"), impl_self: Some("FastOpt"),
              func: "try_from", calls: &[], deps: &[], imports: "Model.Scan Model.Regex Model.Opt Tie.RsOpt" },
     Target { name: "stream_try_from", file: "src/stream.rs", impl_trait: Some("TryFrom"), impl_self: Some("StreamOpt"),
@@ -89,6 +92,8 @@ struct Cx {
     inline_k: bool,
     muts: Vec<String>,
     rebind_ok: bool,
+    /// parameters of type `&mut W` (W: Write): what is written to them is accumulated and returned with the result
+    writers: Vec<String>,
     /// what `return e` means here: the function's result, a loop's `Break`, a closure's value
     retk_stack: Vec<String>,
 }
@@ -173,6 +178,7 @@ fn ty_of_type(t: &Type) -> (String, Ty) {
     if let Some(item) = impl_iter_item(t) { let (c, ty) = ty_of_type(item); return (format!("(list {})", c), Ty::List(Box::new(ty))); }
     match t {
         Type::Reference(r) => ty_of_type(&r.elem),
+        Type::Slice(sl) if matches!(&*sl.elem, Type::Path(p) if path_str(&p.path) == "u8") => ("bytes".into(), Ty::Bytes),
         Type::Path(p) => {
             let seg = match p.path.segments.last() { Some(s) => s, None => return ("UNKNOWN".into(), Ty::Other) };
             let arg0 = || -> (String, Ty) {
@@ -337,7 +343,7 @@ impl Cx {
                     return self.pure(&m.receiver);
                 }
                 if name == "into" && self.ty(&m.receiver) == Ty::Str { return self.pure(&m.receiver); }
-                if ["expect", "unwrap", "collect", "map", "try_into", "into", "for_each", "any", "flat_map"].contains(&name.as_str()) { return Ok(None); }
+                if ["expect", "unwrap", "collect", "map", "try_into", "into", "for_each", "any", "flat_map", "try_for_each", "write_all"].contains(&name.as_str()) { return Ok(None); }
                 let recv = match self.pure(&m.receiver)? { Some(x) => x, None => return Ok(None) };
                 let mut args = vec![];
                 for a in &m.args { match self.pure(a)? { Some(x) => args.push(x), None => return Ok(None) } }
@@ -348,6 +354,7 @@ impl Cx {
                     ("clone", 0) | ("into_iter", 0) | ("iter", 0) | ("as_bytes", 0) | ("as_ref", 0) | ("to_owned", 0) | ("as_deref", 0) => recv,
                     ("len", 0) => format!("(Z.of_nat (length {}))", recv),
                     ("is_empty", 0) => format!("(match {} with [] => true | _ => false end)", recv),
+                    ("as_slice", 0) => recv,
                     ("split_once", 1) => format!("(str_split_once {} {})", args[0], recv),
                     ("find", 1) => format!("(str_find {} {})", args[0], recv),
                     ("into", 0) if self.ty(&m.receiver) == Ty::Str => recv,
@@ -604,7 +611,7 @@ impl Cx {
             Expr::Index(ix) if matches!(&*ix.index, Expr::Range(_)) => {
                 // &s[a..] / &s[..b] / &s[a..b] on a str: panics when out of range
                 let rg = match &*ix.index { Expr::Range(r) => r, _ => unreachable!() };
-                if self.ty(&ix.expr) != Ty::Str { return Err("slicing of something that is not a str".into()); }
+                if !matches!(self.ty(&ix.expr), Ty::Str | Ty::Bytes) { return Err("slicing of something that is not a str or a byte slice".into()); }
                 if !matches!(rg.limits, RangeLimits::HalfOpen(_)) { return Err("inclusive slice".into()); }
                 let (sv, a, b) = (self.fresh("t"), self.fresh("t"), self.fresh("t"));
                 let body = match (&rg.start, &rg.end) {
@@ -659,6 +666,27 @@ impl Cx {
                 let after = format!("(fun {} => match {} with Next {} => ({} tt) | Break {} => ({} {}) end)", r, r, st_pat.trim_start_matches('\''), k, v, outer_ret, v);
                 self.tr(&f.expr, &format!("(fun {} => (bind (loopM (fun {} {} => {}) (to_list {}) {}) {}))", src, st_pat, p, body, src, st_tup, after))
             }
+            Expr::MethodCall(m) if m.method == "try_for_each" && m.args.len() == 1 && matches!(&m.args[0], Expr::Closure(_)) => {
+                // ITER.try_for_each(|x| -> Result<()> { .. }): Ok(()) goes on, Err(..) stops; the mutable variables
+                // (and what has been written) are the loop state in both cases
+                let clo = match &m.args[0] { Expr::Closure(c) => c, _ => unreachable!() };
+                if clo.inputs.len() != 1 { return Err("closure arity".into()); }
+                let st_pat = self.muts_pat(); let st_tup = self.muts_tuple();
+                let elem_ty = match self.ty(&m.receiver) { Ty::Range => Ty::Usize, Ty::List(t) => *t, _ => Ty::Other };
+                let mark = self.env.len(); let mmark = self.muts.len();
+                self.tuple_hint = vec![];
+                let (p, irr) = self.pat(&clo.inputs[0], elem_ty)?;
+                if !irr { return Err("refutable closure parameter".into()); }
+                let ck = format!("(fun r : option unit => match r with Some _ => Ret (Next {}) | None => Ret (Break {}) end)", st_tup, st_tup);
+                let saved_ret_ty = std::mem::replace(&mut self.ret_ty, "_".to_string()); self.retk_stack.push(ck.clone());
+                let body = self.tr(&clo.body, &ck);
+                self.retk_stack.pop(); self.ret_ty = saved_ret_ty;
+                self.env.truncate(mark); self.muts.truncate(mmark);
+                let (src, r) = (self.fresh("a"), self.fresh("r"));
+                let sp = st_pat.trim_start_matches('\'');
+                let after = format!("(fun {} => match {} with Next {} => ({} (Some tt)) | Break {} => ({} (@None unit)) end)", r, r, sp, k, sp, k);
+                self.tr(&m.receiver, &format!("(fun {} => (bind (loopM (fun {} {} => {}) (to_list {}) {}) {}))", src, st_pat, p, body?, src, st_tup, after))
+            }
             Expr::MethodCall(m) if ["for_each", "any", "flat_map"].contains(&m.method.to_string().as_str()) && m.args.len() == 1 && matches!(&m.args[0], Expr::Closure(_)) => {
                 let clo = match &m.args[0] { Expr::Closure(c) => c, _ => unreachable!() };
                 if clo.inputs.len() != 1 { return Err("closure arity".into()); }
@@ -690,11 +718,24 @@ impl Cx {
             Expr::Return(r) => match &r.expr { Some(e) => { let k = self.retk(); self.tr(e, &k) }, None => Ok("(Ret tt)".into()) },
             Expr::Try(t) => {
                 let (r, v) = (self.fresh("r"), self.fresh("v"));
-                self.tr(&t.expr, &format!("(fun {} => match {} with Some {} => ({} {}) | None => Ret None end)", r, r, v, k, v))
+                // stdout.write_all(x)?  appends to the output accumulated so far (writes do not fail here: C14's business)
+                if let Expr::MethodCall(m) = &*t.expr {
+                    if m.method == "write_all" && m.args.len() == 1 {
+                        if let Expr::Path(p) = &*m.receiver {
+                            let w = path_str(&p.path);
+                            if self.writers.contains(&w) {
+                                let x = self.fresh("w");
+                                return self.tr(&m.args[0], &format!("(fun {} => (let {} := ({} ++ {}) in ({} tt)))", x, ident(&w), ident(&w), x, k));
+                            }
+                        }
+                    }
+                }
+                let rk = self.retk();
+                self.tr(&t.expr, &format!("(fun {} => match {} with Some {} => ({} {}) | None => ({} None) end)", r, r, v, k, v, rk))
             }
             Expr::Macro(m) => {
                 let name = path_str(&m.mac.path);
-                if name == "bail" { bail_args_harmless(&m.mac)?; Ok("(Ret None)".into()) } else { Err(format!("macro `{}!`", name)) }
+                if name == "bail" { bail_args_harmless(&m.mac)?; Ok(format!("({} None)", self.retk())) } else { Err(format!("macro `{}!`", name)) }
             }
             Expr::Call(c) => {
                 let f = match &*c.func { Expr::Path(p) => path_str(&p.path), _ => return Err("call of a non-path".into()) };
@@ -879,7 +920,7 @@ impl Cx {
             }
             Stmt::Macro(m) => {
                 let name = path_str(&m.mac.path);
-                if name == "bail" { bail_args_harmless(&m.mac)?; Ok("(Ret None)".into()) } else { Err(format!("macro `{}!`", name)) }
+                if name == "bail" { bail_args_harmless(&m.mac)?; Ok(format!("({} None)", self.retk())) } else { Err(format!("macro `{}!`", name)) }
             }
             Stmt::Item(_) => Err("nested item".into()),
         }
@@ -905,6 +946,7 @@ fn impl_iter_item(t: &Type) -> Option<&Type> {
 
 fn ret_type(t: &Type) -> Option<String> {
     if let Some(item) = impl_iter_item(t) { return Some(format!("(list {})", ret_type(item)?)); }
+    if let Type::Tuple(tt) = t { if tt.elems.is_empty() { return Some("unit".into()); } }
     match t {
         Type::Reference(r) => ret_type(&r.elem),
         Type::Path(p) => {
@@ -1007,7 +1049,7 @@ fn find_fn<'a>(file: &'a File, t: &Target) -> Option<(&'a Signature, &'a Block, 
 fn translate(t: &Target, sig: &Signature, block: &Block, ret_tys: &HashMap<String, Ty>) -> R<(String, Ty)> {
     let mut cx = Cx { env: vec![], fresh: 0, calls: t.calls.iter().map(|(a, b)| (a.to_string(), b.to_string())).collect(),
                       call_ty: t.calls.iter().filter_map(|(a, b)| ret_tys.get(*b).map(|ty| (a.to_string(), ty.clone()))).collect(),
-                      tuple_hint: vec![], ret_ty: String::new(), inline_k: false, muts: vec![], rebind_ok: false, retk_stack: vec![] };
+                      tuple_hint: vec![], ret_ty: String::new(), inline_k: false, muts: vec![], rebind_ok: false, writers: vec![], retk_stack: vec![] };
     cx.inline_k = quote::ToTokens::to_token_stream(block).to_string().contains("let mut ");
     let self_coq = match t.impl_self { Some("Side") => ("side", Ty::Side), Some("UserBounds") => ("ubound", Ty::UB), Some("UserBoundsList") => ("ublist", Ty::Other), Some("FastOpt") => ("gfopt", Ty::Other), Some("StreamOpt") => ("gsopt", Ty::Other), _ => ("UNKNOWN", Ty::Other) };
     let mut rty = Ty::Other;
@@ -1030,11 +1072,28 @@ fn translate(t: &Target, sig: &Signature, block: &Block, ret_tys: &HashMap<Strin
                     Type::Path(p) if path_str(&p.path) == "Self" => (self_coq.0.to_string(), self_coq.1.clone()),
                     other => ty_of_type(other),
                 };
+                if matches!(&*pt.ty, Type::Reference(r) if r.mutability.is_some() && matches!(&*r.elem, Type::Path(p) if sig.generics.params.iter().any(|g| matches!(g, GenericParam::Type(tp) if p.path.is_ident(&tp.ident))))) {
+                    // stdout: &mut W
+                    cx.writers.push(name.clone());
+                    cx.muts.push(name.clone());
+                    cx.env.push((name.clone(), Ty::Bytes));
+                    continue;
+                }
                 if coq.starts_with("UNKNOWN") { return Err(format!("parameter type of `{}`", name)); }
                 cx.env.push((name.clone(), ty));
                 write!(params, " ({} : {})", ident(&name), coq).unwrap();
             }
         }
+    }
+    if !cx.writers.is_empty() {
+        // the result is paired with the bytes written: (value, output)
+        cx.inline_k = true;
+        let outs = cx.writers.iter().map(|w| ident(w)).collect::<Vec<_>>().join(", ");
+        let inits = cx.writers.iter().map(|w| format!("let {} := ([] : bytes) in ", ident(w))).collect::<String>();
+        cx.retk_stack.push(format!("(fun x => Ret (x, {}))", outs));
+        let k = cx.retk();
+        let body = cx.stmts(&block.stmts, &k)?;
+        return Ok((format!("Definition gen_{}{} : rs ({} * bytes) :=\n  ({}{}).\n", t.name, params, cx.ret_ty, inits, body), rty));
     }
     let k = cx.retk();
     let body = cx.stmts(&block.stmts, &k)?;
